@@ -12,9 +12,10 @@ pub fn verif_launch_rdp_thread<S: 'static + Read + Write + Send>(handle: usize, 
     launch_rdp_thread(handle, rdp_client, sync, bitmap_channel)
 }
 
-/// `tcp_from_args` with the arguments the GUI client's `main` would hand it (host and port)
-pub fn verif_tcp_from_args(host: &str, port: u16) -> RdpResult<TcpStream> {
-    let m = App::new("verif").arg(Arg::with_name("host").long("host").takes_value(true)).arg(Arg::with_name("port").long("port").takes_value(true).default_value("3389"))
+/// `tcp_from_args` with the arguments the GUI client's `main` would hand it (host and port); paths spelled out so that
+/// the wrapper does not depend on which names the included file imports
+pub fn verif_tcp_from_args(host: &str, port: u16) -> rdp::model::error::RdpResult<std::net::TcpStream> {
+    let m = clap::App::new("verif").arg(clap::Arg::with_name("host").long("host").takes_value(true)).arg(clap::Arg::with_name("port").long("port").takes_value(true).default_value("3389"))
         .get_matches_from(vec!["verif".to_string(), "--host".to_string(), host.to_string(), "--port".to_string(), port.to_string()]);
     tcp_from_args(&m)
 }
